@@ -16,6 +16,7 @@ import UnifexModel.Driver.Entries.Sched
 import UnifexModel.Driver.Entries.Scope
 import UnifexModel.Driver.Entries.SpawnFuture
 import UnifexModel.Driver.Entries.StopSource
+import UnifexModel.Driver.Entries.Stream
 import UnifexModel.Driver.Entries.Timer
 
 namespace Unifex.Driver
@@ -50,6 +51,7 @@ def table : List ModelEntries :=
   , Entries.scopev0
   , Entries.spawnfuture
   , Entries.stopsource
+  , Entries.streamEntries
   , Entries.clock
   , Entries.timerqueue
   , Entries.timerop
